@@ -340,7 +340,7 @@ MUTANTS = [
     Mutant('benign-gt-form', RUNNER, 'SimulationRunner._simulate_for_current_params_common',
            [('replace', 'current_rep < self.rep_max', 'self.rep_max > current_rep')], None, benign=True),
     Mutant('benign-rename-counter', RUNNER, 'SimulationRunner._simulate_for_current_params_common',
-           [('regex_all', r'\bcurrent_rep\b(?!=)', 'n_done')], None, benign=True),
+           [('regex_all', r'(?<![.\w])current_rep\b', 'n_done')], None, benign=True),
     Mutant('benign-dimensions-loop', PAR, 'SimulationParameters.get_pack_indexes',
            [('regex', r'dimensions = \[len\(self\.parameters\[i\]\) for i in self\.unpacked_parameters\]',
              'dimensions = []\n    for i in self.unpacked_parameters:\n        dimensions.append(len(self.parameters[i]))')],
